@@ -251,7 +251,7 @@ def mutate_leaf(c, rng):
 
 
 def known_leaf(c, r):
-    if c["value"]["t"] == "cidr" and c["field"] is not None and "," in c["field"] and c["cfg"]["family"] == "vb":
+    if c["value"]["t"] == "cidr" and c["field"] is not None and ("," in c["field"] or "»" in c["field"]) and c["cfg"]["family"] == "vb":
         return "D4-native-cidr-raw-field-name"
     if c["field"] is None and c["value"]["t"] == "str" and c["value"].get("cased") and c["cfg"]["family"] == "vb":
         return "C01-unbound-cased-dropped"
